@@ -46,11 +46,26 @@ pub struct Case {
 pub const N_REQUESTS: u8 = 18;
 
 fn request(k: u8, seq: u8) -> Fragment {
-    let crob = ra::h_prefixed8(12, 1, &[(1, ra::crob(3, 1, 10, 10, 0)), (2, ra::crob(4, 1, 10, 10, 0))]);
+    let crob = ra::h_prefixed8(
+        12,
+        1,
+        &[
+            (1, ra::crob(3, 1, 10, 10, 0)),
+            (2, ra::crob(4, 1, 10, 10, 0)),
+        ],
+    );
     match k % N_REQUESTS {
-        0 => Fragment::request(seq, func::WRITE, ra::h_count8(50, 1, 1, &ra::u48(1_600_000_000_000))),
+        0 => Fragment::request(
+            seq,
+            func::WRITE,
+            ra::h_count8(50, 1, 1, &ra::u48(1_600_000_000_000)),
+        ),
         1 => Fragment::request(seq, func::WRITE, ra::h_range8(80, 1, 7, 7, &[0])),
-        2 => Fragment::request(seq, func::WRITE, ra::h_prefixed8(34, 1, &[(0, vec![7, 0]), (1, vec![9, 0])])),
+        2 => Fragment::request(
+            seq,
+            func::WRITE,
+            ra::h_prefixed8(34, 1, &[(0, vec![7, 0]), (1, vec![9, 0])]),
+        ),
         3 => Fragment::request(seq, func::SELECT, crob),
         4 => Fragment::request(seq, func::OPERATE, crob),
         5 => Fragment::request(seq, func::DIRECT_OPERATE, crob),
@@ -69,16 +84,28 @@ fn request(k: u8, seq: u8) -> Fragment {
         14 => Fragment::request(seq, func::ENABLE_UNSOLICITED, ra::h_all(60, 2)),
         15 => Fragment::request(seq, func::DISABLE_UNSOLICITED, ra::h_all(60, 3)),
         16 => Fragment::request(seq, func::READ, ra::h_all(60, 1)),
-        _ => Fragment::request(seq, func::DIRECT_OPERATE, ra::h_prefixed16(41, 2, &[(3, vec![5, 0, 0])])),
+        _ => Fragment::request(
+            seq,
+            func::DIRECT_OPERATE,
+            ra::h_prefixed16(41, 2, &[(3, vec![5, 0, 0])]),
+        ),
     }
 }
 
 fn side_effects(log: &[(u64, Cb)]) -> Vec<String> {
     log.iter()
         .filter_map(|(_, cb)| match cb {
-            Cb::WriteAbsoluteTime(_) | Cb::ColdRestart | Cb::WarmRestart | Cb::Freeze(_) | Cb::BeginDeadBands | Cb::DeadBand(..) | Cb::WriteAttr(_) | Cb::Select(..) | Cb::Operate(..) | Cb::ClearRestartIin | Cb::ControlBegin => {
-                Some(format!("{:?}", cb))
-            }
+            Cb::WriteAbsoluteTime(_)
+            | Cb::ColdRestart
+            | Cb::WarmRestart
+            | Cb::Freeze(_)
+            | Cb::BeginDeadBands
+            | Cb::DeadBand(..)
+            | Cb::WriteAttr(_)
+            | Cb::Select(..)
+            | Cb::Operate(..)
+            | Cb::ClearRestartIin
+            | Cb::ControlBegin => Some(format!("{:?}", cb)),
             _ => None,
         })
         .collect()
@@ -100,7 +127,12 @@ impl Prop for Repeat {
         }
     }
     fn floors() -> Vec<(&'static str, u32)> {
-        vec![("placement:mid_series_k>=2", 15), ("placement:unsol", 30), ("echo_seen", 50), ("unsol_retry_seen", 10)]
+        vec![
+            ("placement:mid_series_k>=2", 15),
+            ("placement:unsol", 30),
+            ("echo_seen", 50),
+            ("unsol_retry_seen", 10),
+        ]
     }
     fn strategy(_tier: Tier) -> BoxedStrategy<Case> {
         let placement = prop_oneof![3 => Just(Placement::Idle), 3 => (1u8..5).prop_map(Placement::MidSeries), 1 => Just(Placement::UnsolNullWait), 2 => Just(Placement::UnsolDataWait)];
@@ -112,12 +144,36 @@ impl Prop for Repeat {
             1 => Just(Between::LinkStatus),
             1 => Just(Between::ForeignFragment),
         ];
-        (placement, 0u8..N_REQUESTS, 0u8..16, 1u8..=4, proptest::collection::vec(between, 4), prop_oneof![3 => Just(249u16), 1 => 249u16..600, 1 => Just(2048u16)], 20u8..120, prop_oneof![Just(None), Just(Some(1u8)), Just(Some(3u8))])
-            .prop_map(|(placement, request, seq, repeats, between, sol_tx, points, retries)| {
-                // a repeated READ is only a retransmission inside a confirm wait
-                let request = if matches!(placement, Placement::MidSeries(_)) { 16 } else { request };
-                Case { placement, request, seq, repeats, between, sol_tx, points, retries }
-            })
+        (
+            placement,
+            0u8..N_REQUESTS,
+            0u8..16,
+            1u8..=4,
+            proptest::collection::vec(between, 4),
+            prop_oneof![3 => Just(249u16), 1 => 249u16..600, 1 => Just(2048u16)],
+            20u8..120,
+            prop_oneof![Just(None), Just(Some(1u8)), Just(Some(3u8))],
+        )
+            .prop_map(
+                |(placement, request, seq, repeats, between, sol_tx, points, retries)| {
+                    // a repeated READ is only a retransmission inside a confirm wait
+                    let request = if matches!(placement, Placement::MidSeries(_)) {
+                        16
+                    } else {
+                        request
+                    };
+                    Case {
+                        placement,
+                        request,
+                        seq,
+                        repeats,
+                        between,
+                        sol_tx,
+                        points,
+                        retries,
+                    }
+                },
+            )
             .boxed()
     }
     fn run(case: &Case) -> CaseOut {
@@ -140,7 +196,12 @@ impl Obs {
         for t in rig.take_tx() {
             if std::env::var("VERIF_TRACE").is_ok() {
                 if let Tx::Fragment { bytes, t, .. } = &t {
-                    println!("  [tx @{}] {} bytes {:02x?}", t, bytes.len(), &bytes[..bytes.len().min(12)]);
+                    println!(
+                        "  [tx @{}] {} bytes {:02x?}",
+                        t,
+                        bytes.len(),
+                        &bytes[..bytes.len().min(12)]
+                    );
                 }
             }
             match t {
@@ -171,7 +232,13 @@ impl Obs {
     }
 }
 
-async fn do_between(rig: &mut OutRig, b: &Between, serial: &mut u32, points: u8, outstanding_seq: Option<u8>) {
+async fn do_between(
+    rig: &mut OutRig,
+    b: &Between,
+    serial: &mut u32,
+    points: u8,
+    outstanding_seq: Option<u8>,
+) {
     match b {
         Between::Nothing => {}
         Between::WrongConfirm(s) => {
@@ -205,7 +272,10 @@ async fn do_between(rig: &mut OutRig, b: &Between, serial: &mut u32, points: u8,
 
 async fn run_case(case: &Case) -> CaseOut {
     let mut out = CaseOut::default();
-    let unsolicited = matches!(case.placement, Placement::UnsolNullWait | Placement::UnsolDataWait);
+    let unsolicited = matches!(
+        case.placement,
+        Placement::UnsolNullWait | Placement::UnsolDataWait
+    );
     let mut cfg = OutConfig::default();
     cfg.sol_tx = case.sol_tx;
     cfg.unsol_tx = 249;
@@ -220,13 +290,53 @@ async fn run_case(case: &Case) -> CaseOut {
     let mut rig = OutRig::start(cfg, beh).await;
     rig.db(|db| {
         for i in 0..case.points as u16 {
-            add_point(db, &PointSpec { ty: 5, index: i, class: 1, svar: 1, evar: 3 });
-            add_point(db, &PointSpec { ty: 3, index: i, class: 2, svar: 1, evar: 1 });
+            add_point(
+                db,
+                &PointSpec {
+                    ty: 5,
+                    index: i,
+                    class: 1,
+                    svar: 1,
+                    evar: 3,
+                },
+            );
+            add_point(
+                db,
+                &PointSpec {
+                    ty: 3,
+                    index: i,
+                    class: 2,
+                    svar: 1,
+                    evar: 1,
+                },
+            );
         }
-        add_point(db, &PointSpec { ty: 2, index: 1, class: 0, svar: 2, evar: 1 });
-        add_point(db, &PointSpec { ty: 6, index: 3, class: 0, svar: 1, evar: 1 });
+        add_point(
+            db,
+            &PointSpec {
+                ty: 2,
+                index: 1,
+                class: 0,
+                svar: 2,
+                evar: 1,
+            },
+        );
+        add_point(
+            db,
+            &PointSpec {
+                ty: 6,
+                index: 3,
+                class: 0,
+                svar: 1,
+                evar: 1,
+            },
+        );
     });
-    let mut obs = Obs { sent: vec![], last_unsol: None, unsol_confirmed_since: false };
+    let mut obs = Obs {
+        sent: vec![],
+        last_unsol: None,
+        unsol_confirmed_since: false,
+    };
     let mut serial = 0u32;
     rig.settle().await;
     let startup = obs.take(&mut rig, &mut out);
@@ -257,7 +367,10 @@ async fn run_case(case: &Case) -> CaseOut {
             rig.db(|db| update_point(db, &r, UpdateOptions::detect_event()));
             rig.settle().await;
             let f = obs.take(&mut rig, &mut out);
-            if !f.iter().any(|b| b[1] == func::UNSOLICITED_RESPONSE && b.len() > 4) {
+            if !f
+                .iter()
+                .any(|b| b[1] == func::UNSOLICITED_RESPONSE && b.len() > 4)
+            {
                 out.label("setup_failed");
             }
         }
@@ -310,7 +423,10 @@ async fn run_case(case: &Case) -> CaseOut {
         rig.send_fragment(&req_bytes);
         rig.settle().await;
         let f = obs.take(&mut rig, &mut out);
-        first_reply = f.iter().find(|b| b[1] == func::RESPONSE && b[0] & 0x0F == case.seq).cloned();
+        first_reply = f
+            .iter()
+            .find(|b| b[1] == func::RESPONSE && b[0] & 0x0F == case.seq)
+            .cloned();
         let log = rig.shared.take_log();
         if !side_effects(&log).is_empty() {
             out.label("side_effecting_function");
@@ -342,8 +458,17 @@ async fn run_case(case: &Case) -> CaseOut {
             let fx = side_effects(&log);
             if !fx.is_empty() {
                 out.fail(
-                    Fail::new("repeat-executed", format!("repeat #{} of request {} (func {}) fired callbacks {:?}", i + 1, case.request, req.func, fx))
-                        .with_sig(format!("C05 repeat-executed func={}", req.func)),
+                    Fail::new(
+                        "repeat-executed",
+                        format!(
+                            "repeat #{} of request {} (func {}) fired callbacks {:?}",
+                            i + 1,
+                            case.request,
+                            req.func,
+                            fx
+                        ),
+                    )
+                    .with_sig(format!("C05 repeat-executed func={}", req.func)),
                 );
             }
             // (2) answered from memory
@@ -361,7 +486,10 @@ async fn run_case(case: &Case) -> CaseOut {
                     }
                 }
             }
-            if first_reply.is_some() && replies.is_empty() && matches!(case.placement, Placement::Idle) {
+            if first_reply.is_some()
+                && replies.is_empty()
+                && matches!(case.placement, Placement::Idle)
+            {
                 out.fail(Fail::new("repeat-not-answered", format!("repeat #{} of request func {} in idle got no reply although the first transmission was answered", i + 1, req.func)));
             }
         } else if let (Placement::MidSeries(_), Some(_)) = (&case.placement, series_seq) {
